@@ -92,7 +92,9 @@ const Q = "'"
 // Bare strips the terminal quote.
 func Bare(w string) string { return strings.TrimPrefix(w, Q) }
 
-func isTermWord(g gx.G, w string) bool { return strings.HasPrefix(w, Q) || !g.IsNonTerm(w) }
+func isTermWord(g gx.G, w string) bool {
+	return !strings.HasPrefix(w, "^") && (strings.HasPrefix(w, Q) || !g.IsNonTerm(w))
+}
 
 // Norm rewrites every terminal word into canonical form.
 func Norm(g gx.G) gx.G {
@@ -139,9 +141,12 @@ func ToCFG(g gx.G) *grammar.CFG {
 	for i, p := range g.Prods {
 		body := grammar.String[grammar.Symbol]{}
 		for _, w := range p.Body {
-			if isTermWord(g, w) {
+			switch {
+			case strings.HasPrefix(w, "^"): // the non-terminal named by the rest, declared or not (malformed grammars)
+				body = append(body, grammar.NonTerminal(w[1:]))
+			case isTermWord(g, w):
 				body = append(body, grammar.Terminal(Bare(w)))
-			} else {
+			default:
 				body = append(body, grammar.NonTerminal(w))
 			}
 		}
